@@ -91,6 +91,6 @@ def answer (fs : List String) : String :=
   | some (scopes, _) =>
     let s := runRoot scopes
     let fresh := s.evs.all fun e => !e.vis.contains e.id
-    s!"{s.top.finish}\tmonitor={s.ok}\tsync={s.sync}\tfresh={fresh}\tidents={s.evs.length}"
+    s!"{s.top.finish}\tmonitor={s.ok}\tsync={s.sync}\tfresh={fresh}\tuses={s.uses}\tidents={s.evs.length}"
 
 end GE.JsWriterTrace
